@@ -164,7 +164,8 @@ def overlaps_at_least(range1, range2, delta=0):
     if range1[1] < range2[1]:
         return ovlp1 >= d or range1[0] >= range2[0]
     else:
-        return ovlp2 >= d or range1[0] <= range2[0]
+        # equal ends: one of the ranges contains the other whichever starts first
+        return ovlp2 >= d or range1[0] <= range2[0] or range1[1] == range2[1]
 
 
 # dangerous function, works only when range1 and range2 are already known to overlap, do not use if unsure
@@ -172,7 +173,7 @@ def overlaps_at_least_when_overlap(range1, range2, delta=0):
     if range1[1] < range2[1]:
         return range1[0] >= range2[0] or range1[1] - range2[0] + 1 >= delta
     else:
-        return range1[0] <= range2[0] or range2[1] - range1[0] + 1 >= delta
+        return range1[0] <= range2[0] or range1[1] == range2[1] or range2[1] - range1[0] + 1 >= delta
 
 
 def intersection_len(range1, range2):
